@@ -71,7 +71,10 @@ def pair_cells(quick):
                         continue
                     bps = [(i * 7 + j * 3 + oi) % len(BATCH_PAIRS)]
                 else:
-                    bps = range(len(BATCH_PAIRS)) if op in ("add", "matmul") else [(i + j) % len(BATCH_PAIRS), (i + 2 * j + 1) % len(BATCH_PAIRS), 2, 3]
+                    nbp = len(BATCH_PAIRS)
+                    bps = (range(nbp) if op == "add" else
+                           [(i + j) % nbp, (i + 2 * j + 1) % nbp, 2, 4] if op == "matmul" else
+                           [(i + j) % nbp, (i + 2 * j + 1) % nbp, 3])
                 for bp in sorted(set(bps)):
                     out.append(("pair", op, ca, cb, bp))
     return out
@@ -590,15 +593,16 @@ def coq_stage(ctx, results, stats):
                 continue
             items.append((ri, n, pl, lit.obs_lit(got), st in ("ok", "unsupported", "not-psd")))
     shards = []
-    for i in range(0, len(items), SH):
-        shards.append(("c02_%d" % (i // SH), shard_src([(pl, ol) for (_, _, pl, ol, _) in items[i:i + SH]])))
+    SHn = SH if ctx.quick else 2 * SH
+    for i in range(0, len(items), SHn):
+        shards.append(("c02_%d" % (i // SHn), shard_src([(pl, ol) for (_, _, pl, ol, _) in items[i:i + SHn]])))
     res = run_shards_limited(ctx, shards)
     reported = set()
     codes_hist = {}
     for si, (name, _) in enumerate(shards):
         rc, out = res[name]
         two = parse_two_lists(out) if rc == 0 else None
-        chunk = items[si * SH:(si + 1) * SH]
+        chunk = items[si * SHn:(si + 1) * SHn]
         if two is None or len(two[0]) != len(chunk) or len(two[1]) != len(chunk):
             ctx.violation({"kind": "shard-failed", "shard": name, "out": out[-800:]}, no_input=True)
             continue
